@@ -58,7 +58,7 @@ def configs(tier):
                 if kind == "bcc":
                     if fac == 2 or rank == 1:
                         continue
-                    depth = 3 if tier == "quick" else 4      # index bookkeeping after a run-level merge needs 2 further iterations
+                    depth = 3      # index bookkeeping after a run-level merge needs 2 further iterations (depth 4: ~6000 histories)
                 out.append({"sys": kind, "div": list(div), "mesh": mesh if isinstance(mesh, int) else list(mesh),
                             "fac": fac, "irred": sym, "rank": rank, "depth": depth})
     return out
